@@ -136,6 +136,33 @@ pub fn run(ctx: &mut Ctx) {
                 off += w + f["ra"].as_u64().unwrap_or(0) as usize;
             }
         }
+        // kinds with a hand-written body or an until-end-of-frame text: every byte value at every position of several short frames,
+        // including bodies with NULs inside and NUL padding (text offsets pointing into the padding)
+        for l in ls.kinds.clone().iter() {
+            let custom = l["custom_body"].as_bool() == Some(true);
+            if !custom && l["tail"]["k"] != "streof" { continue; }
+            let ty = l["type_no"].as_u64().unwrap() as u8;
+            let bodies: Vec<Vec<u8>> = vec![
+                vec![0, 0, 3, 7, 1, 3, b'h', b'i', 0, 0],
+                vec![1, 0, 0, 0, 2, 6, b'a', b'b', 0, b' ', b':', b' ', b'h', b'e', b'y', 0, 0, 0],
+                vec![0, 0, 0, 0, 0, 0, 0, 0, 0, 0],
+                vec![9, 0, 1, 2, 1, 4, b'n', b'a', b'm', b'e', b'm', b's', b'g', b'!', b'x', b'y', b'z', b'w'],
+            ];
+            for body in bodies {
+                let mut f = vec![0u8, ty];
+                f.extend_from_slice(&body);
+                while f.len() % 4 != 0 { f.push(0); }
+                f[0] = size_byte(compressed, f.len());
+                for pos in 2..f.len() {
+                    for v in 0..=255u8 {
+                        if quick && pos > 9 && v > 8 && v % 16 != 0 { continue; }
+                        let mut g = f.clone();
+                        g[pos] = v;
+                        hostile_case(ctx, &ls, compressed, &g, "text-body");
+                    }
+                }
+            }
+        }
         ctx.exhaustive_domains.push(format!("every byte value 0..255 in every enum-typed, bool, count and hand-written-codec position of every kind, mode {}", if compressed { "c" } else { "u" }));
         // random buffers
         for _ in 0..(if quick { 4000 } else { 400_000 }) {
